@@ -42,6 +42,14 @@ var redirect = map[string]map[string]string{
 	"time": {
 		"Sleep": "Sleep",
 	},
+	"os/signal": {
+		// the harness plays the operating system that delivers the application's stop signal: it has to know when the
+		// library tells the OS to stop delivering to a channel
+		"Notify": "SignalNotify",
+		"Stop":   "SignalStop",
+		"Reset":  "SignalReset",
+		"Ignore": "SignalIgnore",
+	},
 	"sync": {
 		"Mutex":   "Mutex",
 		"RWMutex": "RWMutex",
@@ -437,6 +445,10 @@ func rewriteFile(name string, src []byte, stats map[string]int) ([]byte, int, er
 		case "sync":
 			if used[path] {
 				fmt.Fprintf(&b, "var _ %s.Locker\n", nm)
+			}
+		case "os/signal":
+			if used[path] {
+				fmt.Fprintf(&b, "var _ = %s.Notify\n", nm)
 			}
 		}
 	}
